@@ -256,7 +256,7 @@ def run_once(prop, trace, ids_seed, log):
     hashorder.install(ids_seed)
     stats = collections.Counter()
     try:
-        built = gen_dsg.build(spec)
+        built = gen_dsg.build(spec, staged=trace.get('staged'))
         log.append(('built', tuple(gen_dsg.observe_nodes(built.dsg)) if built.dsg.feasible else (), bool(built.dsg.feasible)))
         archs = spec_obj.enumerate(limit=3000)
         stats['rsem_architectures'] = len(archs)
@@ -450,8 +450,13 @@ def generate(prop, seed, tier, n_incompat_max):
     walks = [{'order_seed': orng.getrandbits(32), 'picks': None} for _ in range(n_walks)]
     directed = [{'index': i, 'order_seeds': [orng.getrandbits(32), orng.getrandbits(32)], 'picks': None}
                 for i in range(10 if tier == 'quick' else 24)]
+    staged = None
+    if orng.random() < 0.25:
+        # construction history: the same builder object is initialised twice (other start node first / an edge added later)
+        staged = ['start', orng.choice(spec['nodes'])] if orng.random() < 0.5 or not spec['derive'] \
+            else ['edge', orng.randrange(len(spec['derive']))]
     return {'property': prop, 'engine': ENGINE, 'seed': seed, 'spec': spec, 'walks': walks, 'directed': directed,
-            'ids_seeds': [s.int_seed('ids'), s.int_seed('ids2')]}
+            'ids_seeds': [s.int_seed('ids'), s.int_seed('ids2')], 'staged': staged}
 
 
 # ---------------------------------------------------------------------------------------------------------------------
@@ -460,6 +465,10 @@ def generate(prop, seed, tier, n_incompat_max):
 def shrink_candidates(trace):
     t = trace
     spec = t['spec']
+    if t.get('staged'):
+        c = copy.deepcopy(t)
+        c['staged'] = None
+        yield c
     # fewer walks
     if len(t['walks']) + len(t['directed']) > 1:
         for i in range(len(t['walks'])):
@@ -519,7 +528,8 @@ def shrink_candidates(trace):
 def trace_size(trace):
     s = trace['spec']
     return (len(s['nodes']) * 20 + len(s['derive']) * 10 + sum(10 + 5 * len(c[2]) for c in s['sel'])
-            + len(s['incompat']) * 10 + len(s['start']) * 5 + len(trace['walks']) * 3 + len(trace['directed']) * 3)
+            + len(s['incompat']) * 10 + len(s['start']) * 5 + len(trace['walks']) * 3 + len(trace['directed']) * 3
+            + (7 if trace.get('staged') else 0))
 
 
 def signature(trace, result):
@@ -539,6 +549,8 @@ def signature(trace, result):
         feats.append('shared-option')
     if len(spec['start']) > 1:
         feats.append('multi-start')
+    if trace.get('staged'):
+        feats.append('staged-build:' + trace['staged'][0])
     return {'clause': result['clause'], 'needs': feats}
 
 
